@@ -481,6 +481,30 @@ func opC18W2(raw json.RawMessage, o *Out) {
 			rec.add(sub, cls, fmt.Sprintf("%s minus hole %v: area %v signed sum %v cells %v; centroid %v cells %v", desc, h, pg.Area(), ssum, pexp, cen, cexp),
 				map[string]any{"ev": "poly", "area": c18K(pg.Area()), "ssum": c18K(ssum), "lo": c18K(pexp - ptol), "hi": c18K(pexp + ptol),
 					"cen": c18K3(cen), "csum": c18K3(csum), "clo": clo, "chi": chi, "holes": holes, "chain": len(loops)})
+			// A loop that has been a hole of this polygon, used again as the only loop of a new polygon: the new
+			// polygon is that loop (area, centroid, sign), whatever the loop object went through before.
+			for i := 0; i < pg.NumLoops(); i++ {
+				l := pg.Loop(i)
+				if !l.IsHole() {
+					continue
+				}
+				la, lc := l.Area(), l.Centroid().Vector
+				p1 := s2.PolygonFromLoops([]*s2.Loop{l})
+				l1 := p1.Loop(0)
+				sa := float64(l1.Sign()) * l1.Area()
+				sc := l1.Centroid().Vector
+				if l1.Sign() < 0 {
+					sc = sc.Mul(-1)
+				}
+				t1 := 1e-13
+				c1 := p1.Centroid().Vector
+				rec.add(sub, cls+"/reused-hole", fmt.Sprintf("%s: loop %d (a hole of the polygon) as the single loop of a new polygon: area %v, the loop's area %v; centroid %v, the loop's %v", desc, i, p1.Area(), la, c1, lc),
+					map[string]any{"ev": "poly", "area": c18K(p1.Area()), "ssum": c18K(sa), "lo": c18K(la - t1), "hi": c18K(la + t1),
+						"cen": c18K3(c1), "csum": c18K3(sc),
+						"clo": [3]emb.Key{c18K(lc.X - t1), c18K(lc.Y - t1), c18K(lc.Z - t1)}, "chi": [3]emb.Key{c18K(lc.X + t1), c18K(lc.Y + t1), c18K(lc.Z + t1)},
+						"holes": []bool{l1.IsHole()}, "chain": 1})
+				break
+			}
 		}
 	}
 	o.sample = map[string]any{"op": "c18.w2", "face": c.F, "level": c.G, "a": c.A, "holes": c.Holes}
